@@ -295,8 +295,11 @@ Definition add_obj (blocks : list ablock) (o : nat) : list ablock :=
    The argument is evaluated first (struct, then storage; the allocation guard releases the struct when the
    storage is refused); push_back(x) is constructNode(x, end()), and end() creates the head node of a list
    that was never used (m_blocks.empty() itself no longer does).  When the head node or the list node is
-   refused the new block is lost. *)
-Definition arena_new_block (a : arena) (h : heap) : heap * arena * bool :=
+   refused: [g] = false (the code as found, K-new-1) the new block is lost; [g] = true (the repaired code:
+   theNewBlock = create(...); try { push_back(theNewBlock); } catch(...) { XalanDestroy(manager, theNewBlock);
+   throw; }) the block is destroyed - ~ArenaBlockBase releases the storage, then the struct is released.
+   The value of [g] for this tree is GenMem.arena_block_guarded. *)
+Definition arena_new_block (g : bool) (a : arena) (h : heap) : heap * arena * bool :=
   match alloc (am a) TAG_ABLK 1 h with
   | (h2, None) => (h2, a, false)
   | (h2, Some bs) =>
@@ -306,14 +309,15 @@ Definition arena_new_block (a : arena) (h : heap) : heap * arena * bool :=
           match list_insert TAG_ANODE (alist a) (length (lnodes (alist a))) h3 with
           | (h4, l2, true) => (h4, mkarena l2 (ablocks a ++ [mkblk bs st []]) (absize a) (aleak a), true)
           | (h4, l2, false) =>
-              (h4, mkarena l2 (ablocks a) (absize a) ((bs, lm l2) :: (st, lm l2) :: aleak a), false)
+              if g then (free (lm l2) bs (free (lm l2) st h4), mkarena l2 (ablocks a) (absize a) (aleak a), false)
+              else (h4, mkarena l2 (ablocks a) (absize a) ((bs, lm l2) :: (st, lm l2) :: aleak a), false)
           end
       end
   end.
 
 (* p = allocateBlock(); new (p) Obj(manager, osz); commitAllocation(p) *)
-Definition arena_new_obj (a : arena) (osz : nat) (h : heap) : heap * arena * bool :=
-  match (if last_full a then arena_new_block a h else (h, a, true)) with
+Definition arena_new_obj (g : bool) (a : arena) (osz : nat) (h : heap) : heap * arena * bool :=
+  match (if last_full a then arena_new_block g a h else (h, a, true)) with
   | (h5, a2, false) => (h5, a2, false)
   | (h5, a2, true) =>
       match alloc (am a2) TAG_BYTE osz h5 with              (* the object's constructor *)
@@ -354,9 +358,9 @@ Definition arena_dtor (a : arena) (h : heap) : heap * arena * bool :=
 
 Inductive aop := ANew (osz : nat) | AReset.
 
-Definition astep (op : aop) (a : arena) (h : heap) : heap * arena * bool :=
+Definition astep (g : bool) (op : aop) (a : arena) (h : heap) : heap * arena * bool :=
   match op with
-  | ANew osz => arena_new_obj a osz h
+  | ANew osz => arena_new_obj g a osz h
   | AReset => arena_reset a h
   end.
 
@@ -400,7 +404,10 @@ Definition list_case (f : option nat) (ops : list lop) : result :=
   let '(h1, ok) := ldestroy w (clear_log h) in
   mkresult t ok (rev (log h1)) (length (live h1)) (bad h1).
 
-Definition arena_case (f : option nat) (bs : nat) (ops : list aop) : result :=
-  let '(t, a, h) := run_trace _ _ astep aobs ops (arena0 0 bs) (heap0 f) in
+Definition arena_case_g (g : bool) (f : option nat) (bs : nat) (ops : list aop) : result :=
+  let '(t, a, h) := run_trace _ _ (astep g) aobs ops (arena0 0 bs) (heap0 f) in
   let '(h1, _, ok) := arena_dtor a (clear_log h) in
   mkresult t ok (rev (log h1)) (length (live h1)) (bad h1).
+
+(* this tree: the shape of allocateBlock() found by the translator *)
+Definition arena_case := arena_case_g arena_block_guarded.
